@@ -65,8 +65,9 @@ def collect_diffs(path, decisions):
     for d in decisions:
         ld = adjust_patch_level(path, d.common_path, d.local_diff)
         rd = adjust_patch_level(path, d.common_path, d.remote_diff)
-        local_diff.extend(ld)
-        remote_diff.extend(rd)
+        # One-sided decisions have None for the diff of the other side
+        local_diff.extend(ld or [])
+        remote_diff.extend(rd or [])
     local_diff = combine_patches(local_diff)
     remote_diff = combine_patches(remote_diff)
     return local_diff, remote_diff
